@@ -1070,7 +1070,8 @@ def c05(run):
     run.rule = ('programs with functions of all three name kinds, 1-3 parameters (some shadowing globals), recursion, returns inside '
                 'loops/ifs, block locals, pronoun reads, calls nested in arguments, error calls (wrong arity, non-function, unknown name, '
                 'leaked local); metamorphic oracles on the implementation: an unused extra parameter+argument changes nothing, wrapping '
-                'statements that bind no new name in `if true` changes nothing; non-trivial = at least 2 calls executed; distinct by program text')
+                'statements that bind no new name in `if true` changes nothing; EVERY function body of up to 2 (quick) / 3 (thorough) statements '
+                'over a 21-shape vocabulary x 8 observations, tied to the model; non-trivial = at least 2 calls executed; distinct by program text')
     cases = []
     for i in range(n):
         fg = Funcs(rng)
@@ -1113,6 +1114,37 @@ def c05(run):
             # the pronoun is cleared when the block ends: only compare when no later statement reads it
             run.fail({'program': srcs[0], 'variant': srcs[2], 'answers': [r0[:300], r2[:300]]},
                      'wrapping a statement that binds no new name in `if true` changes the behaviour')
+
+
+    # bounded-exhaustive: EVERY function body of up to 2 (quick) / 3 (thorough) statements from a vocabulary with each
+    # scope-relevant shape once (write a global / a local / the parameter, read each, pronoun, block-local binding, nested call
+    # of a helper that writes the same names, early return, return in a loop, recursion), called, then every name observed
+    import itertools
+    L = 2 if run.tier == 'quick' else 3
+    sc = []
+    for k in range(0, L + 1):
+        for body in itertools.product(SCOPE_BODY, repeat=k):
+            for obs in SCOPE_OBS:
+                sc.append(SCOPE_PRE + 'ff takes pp\n' + ''.join(b + '\n' for b in body) + 'give back pp with 100\n\n' + SCOPE_CALL + obs + '\n')
+    sreqs = [run_req(t, steps=20000) for t in sc]
+    sm, sim = run.tie(sreqs, proj=proj_run, functional=True, desc=lambda i: {'program': sc[i], 'section': 'bounded-exhaustive'})
+    for t, r in zip(sc, sim):
+        if r is None:
+            continue
+        c = run_parts(r)[0]
+        run.case(('bx', t), True, kind='bounded-exhaustive', outcome=c)
+        if c in ('crash', 'hang'):
+            run.fail({'program': t, 'answer': r[:200]}, 'function program crashes')
+    run.extra['small_scope'] = {'body_statements': len(SCOPE_BODY), 'observations': len(SCOPE_OBS), 'exhaustive_up_to_length': L, 'programs': len(sc)}
+
+
+SCOPE_PRE = 'put 1 into gg\nput 2 into hh\nhelper takes qq\nput 30 into gg\nput 31 into ll\nput 32 into pp\ngive back qq\n\n'
+SCOPE_BODY = ['put 10 into gg', 'put 11 into ll', 'put 12 into pp', 'say gg', 'say ll', 'say pp', 'say it', 'let gg be with pp',
+              'put helper taking 7 into hh', 'say helper taking pp', 'if pp is 5\nput 13 into bb\nsay bb\n', 'if pp is 5\nput 14 into gg\n',
+              'say bb', 'if pp is greater than 0\ngive back ff taking pp minus 5\n', 'while pp is greater than 0\nknock pp down\nput 15 into ww\nif pp is 2\ngive back ww\n\n',
+              'say ww', 'give back gg', 'rock gg with pp', 'put pp into ll at 0', 'listen to ll', 'put ff into hh']
+SCOPE_CALL = 'say ff taking 5\n'
+SCOPE_OBS = ['say gg\nsay hh', 'say ll', 'say pp', 'say bb', 'say it', 'say ww', 'say ff taking gg, hh', 'say hh taking 1']
 
 
 # ----------------------------------------------------------------------------- C06
